@@ -46,6 +46,7 @@ type Prog struct {
 	fileOf  map[*token.File]*ast.File
 	astFunc map[*ssa.Function]ast.Node
 	byName  map[string]*ssa.Function
+	canonFull map[*ssa.Function]string
 }
 
 // Load loads and type-checks the whole module and builds SSA.  Any type error, or a
@@ -198,6 +199,28 @@ func (p *Prog) Pos(pos token.Pos) string {
 // FuncName is a stable, position-free name: "internal/state.(*State).flushResponses",
 // closures as "…$1".
 func (p *Prog) FuncName(fn *ssa.Function) string {
+	if fn == nil {
+		return "<nil>"
+	}
+	// a renamed function (or a closure of one) is reported under its reference name
+	if len(p.canonFull) > 0 {
+		top := fn
+		for top.Parent() != nil {
+			top = top.Parent()
+		}
+		if canon, ok := p.canonFull[top]; ok {
+			raw := p.rawFuncName(fn)
+			rawTop := p.rawFuncName(top)
+			if strings.HasPrefix(raw, rawTop) {
+				return canon + raw[len(rawTop):]
+			}
+		}
+	}
+	return p.rawFuncName(fn)
+}
+
+// rawFuncName is the name as declared in the analysed tree.
+func (p *Prog) rawFuncName(fn *ssa.Function) string {
 	if fn == nil {
 		return "<nil>"
 	}
